@@ -99,6 +99,14 @@ func (w *World) StartEIOServer(cfg *eio.ServerConfig) *EIOServer {
 
 // StartEIOServerWrapped lets the caller put an http.Handler around the server (request recorders).
 func (w *World) StartEIOServerWrapped(cfg *eio.ServerConfig, wrap func(http.Handler) http.Handler) *EIOServer {
+	return w.startEIOServer(cfg, wrap, nil)
+}
+
+func (w *World) startEIOServerCB(cfg *eio.ServerConfig, mk func(side *EIOSide) *eio.Callbacks) *EIOServer {
+	return w.startEIOServer(cfg, nil, mk)
+}
+
+func (w *World) startEIOServer(cfg *eio.ServerConfig, wrap func(http.Handler) http.Handler, mk func(side *EIOSide) *eio.Callbacks) *EIOServer {
 	es := &EIOServer{W: w}
 	if cfg.Debugger == nil {
 		cfg.Debugger = w.EIODbg
@@ -112,6 +120,9 @@ func (w *World) StartEIOServerWrapped(cfg *eio.ServerConfig, wrap func(http.Hand
 		w.E.Log(0, "srv.open", "sid=%s", socket.ID())
 		if es.OnNew != nil {
 			es.OnNew(side)
+		}
+		if mk != nil {
+			return mk(side)
 		}
 		return w.callbacks(side, eioparser.PacketTypePong)
 	}, cfg)
